@@ -10,7 +10,7 @@ LADDER = [0.0, 1e-3, 0.01, 0.1, 1.0, 1.4, 2.0, 5.0, 10.0, 30.0, 77.0, 300.0, 100
 def run(ck):
     import numpy
     qr = import_quantarhei()
-    from quantarhei import Molecule, Aggregate, Mode, TimeAxis, CorrelationFunction, energy_units, eigenbasis_of
+    from quantarhei import Molecule, Aggregate, Mode, TimeAxis, CorrelationFunction, energy_units, eigenbasis_of, Hamiltonian
     from quantarhei.core.units import kB_intK
     rng = ck.rng
     ck.rule = ("aggregates of 2-4 molecules (site energies in random order, a 700 1/cm gap in some, with and without a bath temperature, with "
@@ -153,6 +153,25 @@ def run(ck):
                                         "Hamiltonian differs from the state without it", inp, dvh)
                         except Exception as e:
                             ck.fail("raises:supplied-hamiltonian:%s:%s" % (cond, limit), "get_DensityMatrix(relaxation_hamiltonian=...) raised %r" % (e,), inp)
+                    # strong coupling: a supplied Hamiltonian is taken as already void of the reorganisation energies, so the
+                    # aggregate's Hamiltonian with the relaxed site energies on its diagonal gives the builder's own state
+                    if not inside and cond == "thermal_excited_state" and limit == "strong_coupling":
+                        try:
+                            with energy_units("int"):
+                                lam_ = numpy.array([agg.sbi.get_reorganization_energy(i) for i in range(n)])
+                            Hr = Hs.copy()
+                            for i_ in range(n):
+                                Hr[start + i_, start + i_] -= lam_[i_]
+                            with energy_units("int"):
+                                hr_obj = Hamiltonian(data=Hr)
+                            rho_r = agg.get_DensityMatrix(condition_type=cond, relaxation_theory_limit=limit, temperature=T,
+                                                          relaxation_hamiltonian=hr_obj)
+                            dvr = float(numpy.abs(numpy.array(rho_r.data) - d_site).max())
+                            if dvr > 1e-12:
+                                ck.fail("supplied-hamiltonian:relaxed:%s:%s" % (cond, limit), "the state for a supplied Hamiltonian that carries the "
+                                        "relaxed site energies differs from the builder's own strong-coupling state", inp, dvr)
+                        except Exception as e:
+                            ck.fail("raises:supplied-hamiltonian:relaxed:%s:%s" % (cond, limit), "get_DensityMatrix(relaxation_hamiltonian=...) raised %r" % (e,), inp)
                     what = "%s:%s" % (cond, limit)
                     ck.case((s, T, cond, limit, inside), nontrivial=(Teff < 5 or energies[0] > min(energies) or inside), condition=cond,
                             limit=limit, lowT=bool(Teff < 5), inside=inside, sample=inp if (s == 0 and T == 1.0 and cond != "thermal" and inside) else None)
